@@ -425,7 +425,7 @@ def mon_plans(lines, c, want):
         for k, (idx, l) in enumerate(evs):
             if snap is None and ((l.kind == "cb" and l.meth not in T.PHASE) or (l.kind == "log" and l.what == "transition" and l.args[0] != "255"
                                  and not (k + 1 < len(evs) and evs[k + 1][1].kind == "did"))):
-                snap = (a0 in FA[i], PE[i])
+                snap = (a0 in FA[i], PE[i], a0 in SU[i], list(PL[i]), any_fail)
             if l.kind == "cb":
                 if pending_outcome_clear:
                     PL[i] = []; SU[i] = set(); FA[i] = set(); pending_outcome_clear = False
@@ -480,12 +480,17 @@ def mon_plans(lines, c, want):
                 SU[i].discard(who_id(l.who)); FA[i].discard(who_id(l.who)); A[i] = None
         if pending_outcome_clear: PL[i] = []; SU[i] = set(); FA[i] = set()
         SU[i] -= to_clear
+        if call.op in ("update", "react") and "C08" in want and a0 is not None:
+            # converse: the first task's origin is active and has an outstanding success, no failure around, a plan exists => it fires in this cycle
+            sn = snap if snap is not None else (a0 in FA[i], PE[i], a0 in SU[i], list(PL[i]), any_fail)
+            if sn[1] and sn[2] and not sn[0] and not sn[4] and sn[3] and sn[3][0][0] == a0 and not any(o == a0 and d == sn[3][0][1] for (_, o, d) in fired) and not plan_cb:
+                return call.start, "the first task %d>%d has an active origin with an outstanding success report and no failure is outstanding, yet it did not fire in this %s()" % (sn[3][0][0], sn[3][0][1], call.op)
         if call.op in ("update", "react") and "C09" in want:
             kinds = [l.meth for _, l in plan_cb]
             if len(kinds) > 1: return plan_cb[1][0], "two plan outcome callbacks in one cycle: %s" % kinds
             # converse: a failure outstanding for the active state (reported in this cycle or latched) on a machine that has a plan
             # must be answered by planFailed() in this very cycle
-            if snap is None: snap = (a0 in FA[i], PE[i])
+            if snap is None: snap = (a0 in FA[i], PE[i], a0 in SU[i], list(PL[i]), any_fail)
             if snap[0] and snap[1] and "planFailed" not in kinds:
                 return call.start, "state %s has a failure outstanding and a plan exists, yet %s() delivered %s instead of planFailed" % (a0, call.op, kinds or "no plan outcome")
         # (load() discards the plan before it runs callbacks when the loader stays or becomes active, after them when it ends inactive)
